@@ -43,9 +43,30 @@ def job_tag_documents(case):
                 place_index={'job1': case['used']})
 
 
+def match_place_documents(case):
+    """init_read documents for a match_place case: one job with two tagged places; the solution document visits it with the tag of place `used`."""
+    docs = job_tag_documents(dict(case, kind='job_tag'))
+    for i, p in enumerate(case['places']):
+        docs['problem']['plan']['jobs'][0]['services'][0]['places'][i]['duration'] = float(p['duration'])
+    import datetime
+    rfc = lambda t: datetime.datetime.fromtimestamp(int(t), datetime.timezone.utc).strftime('%Y-%m-%dT%H:%M:%SZ')
+    loc_index = docs['problem']['plan']['jobs'][0]['services'][0]['places'][case['used']]['location']
+    vs, ve = case['visit']
+    times0 = {'driving': 0, 'serving': 0, 'waiting': 0, 'break': 0, 'commuting': 0, 'parking': 0}
+    stat = {'cost': 0.0, 'distance': 0, 'duration': 0, 'times': times0}
+    stops = [{'location': {'index': 0}, 'time': {'arrival': rfc(0), 'departure': rfc(0)}, 'distance': 0, 'load': [0], 'activities': [{'jobId': 'departure', 'type': 'departure'}]},
+             {'location': loc_index, 'time': {'arrival': rfc(vs), 'departure': rfc(ve)}, 'distance': 0, 'load': [0],
+              'activities': [{'jobId': 'job1', 'type': 'service', 'jobTag': 'ab'[case['used']], 'time': {'start': rfc(vs), 'end': rfc(ve)}}]},
+             {'location': {'index': 0}, 'time': {'arrival': rfc(ve), 'departure': rfc(ve)}, 'distance': 0, 'load': [0], 'activities': [{'jobId': 'arrival', 'type': 'arrival'}]}]
+    solution = {'statistic': stat, 'tours': [{'vehicleId': 'v1', 'typeId': 'type1', 'shiftIndex': 0, 'stops': stops, 'statistic': stat}]}
+    return dict(docs, kind='init_read', solution=solution)
+
+
 def run_native(case, profile='dev'):
     if case.get('kind') == 'job_tag':
         case = job_tag_documents(case)
+    if case.get('kind') == 'match_place':
+        case = match_place_documents(case)
     binary, err = build(profile)
     if binary is None:
         return None, 'replay binary does not build: ' + err
@@ -630,6 +651,17 @@ def evaluate(case, native):
             return True, (f'the activity uses place {case["used"]} (tag {want!r}: location and window {case["places"][case["used"]]}) but the written solution reports tag {got!r} '
                           f'(places: {case["places"]})')
         return False, 'the reported tag is the tag of the used place'
+    if kind == 'match_place':
+        u = case['used']
+        if 'error' in native:
+            return True, (f'a solution whose activity carries tag {"ab"[u]!r} (visit {case["visit"]} inside the window of that place) does not read back: {native["error"]} '
+                          f'(places {case["places"]})')
+        acts = [a for r in native['routes'] for a in r]
+        if len(acts) != 1:
+            return True, f'the job was not reconstructed exactly once: {native}'
+        if acts[0]['place_idx'] != u or acts[0]['duration'] != float(case['places'][u]['duration']):
+            return True, f'activity tagged {"ab"[u]!r} was reconstructed at place {acts[0]["place_idx"]} (duration {acts[0]["duration"]}), expected place {u} (places {case["places"]})'
+        return False, 'the tagged activity is read back at the place its tag belongs to'
     if kind == 'statistic_sum':
         for k_ in ('cost', 'distance', 'duration', 'driving', 'serving', 'waiting', 'break_time', 'commuting', 'parking'):
             want = case['a'][k_] + case['b'][k_]
